@@ -25,7 +25,12 @@ CFG = dict(
     sig=c17_sig,
     rule=("every URL path of length <= L over {'/', '.', 'a', '\\\\'} (L=6 quick: 5,461 strings; L=8 thorough: 87,381) x 12 base "
           "spellings (absolute, relative, '.', trailing slash, '..' inside, '//', '/', '..', '../x', 'a/../..'), plus seeded "
-          "random byte strings for base (non-empty) and path (any byte incl. NUL and >= 0x80); one case = one (base, path) "
+          "random byte strings for base (non-empty) and path (any byte incl. NUL and >= 0x80); call sequences in one process "
+          "over nested bases (b, b/sub, b/sub/sub2; absolute, relative, '/', '../up', trailing slash) with url paths that are the "
+          "same text once concatenated with the base ('/sub/..' vs '/..', '/sub/../..' vs '/../..', '/sub/x' vs '/x', '//sub/..'), "
+          "both orders, alternating, and with 0/300/3000 unrelated calls in between, at the start and again at the end of the run; "
+          "long paths: 100..5000 repetitions of './', '/', 'x/../', './/' followed by '../../etc/passwd', '..', '../..', with and "
+          "without leading slash (tag L, not part of the in-Coq sample); one case = one (base, path) "
           "pair with the returned string; non-trivial = distinct case lines"),
     trusted_base=[HARNESS_TB, EXTRACT_TB,
                   "Lib/GoPath.v as the model of Go's path.Clean / POSIX filepath.Clean / filepath.Join (segment stack machine); "
